@@ -70,8 +70,8 @@ theorem map_progOfSrc (files : List (Name × Name)) :
 
 /-! ## The parser wrapper -/
 
-theorem parseProgram_total (hp : ParseCaught X) (hf : FeaturesTotal X) (src : Name) :
-    ∃ ls, parseProgram X src = .ok ls := by
+theorem parseProgram_total (hp : ParseCaught X) (hfl : FlattenCaught X) (hf : FeaturesTotal X)
+    (src : Name) : ∃ ls, parseProgram X src = .ok ls := by
   unfold parseProgram
   cases h : X.parse src with
   | error e => simp [(hp src e h).1]
@@ -79,7 +79,14 @@ theorem parseProgram_total (hp : ParseCaught X) (hf : FeaturesTotal X) (src : Na
     simp only
     split
     · exact ⟨_, rfl⟩
-    · exact hf src t
+    · cases hfl' : X.flatten src t with
+      | error e => simp [(hfl src t e hfl').1]
+      | ok u => exact hf src t
+
+theorem parseProgram_unflattenable {src : Name} {t : Tree} {e : Exc} (h : X.parse src = .ok t)
+    (hne : X.isEmpty t = false) (hfl : X.flatten src t = .error e) (hc : e.caught = true) :
+    parseProgram X src = .ok [astLabel e.name src] := by
+  unfold parseProgram; rw [h]; simp [hne, hfl, hc]
 
 theorem parseProgram_invalid {src : Name} {e : Exc} (h : X.parse src = .error e)
     (hc : e.caught = true) : parseProgram X src = .ok [astLabel e.name src] := by
